@@ -53,6 +53,7 @@ def emitFor (op : String) (ws : List Nat) (wd : Nat) (param : List Nat) : Except
   | "-" => pure (emitSub (w 0) (w 1) wd)
   | "*" => pure (emitMul (w 0) (w 1) wd)
   | "s" => pure (emitSelect param wd)
+  | "c" => pure (emitConcat ws wd)
   | _ => throw s!"no C model for op {op}"
 
 def toLimbs (v : Nat) (n : Nat) : List Nat := (List.range n).map fun i => v / 2 ^ (64 * i) % 2 ^ 64
